@@ -4,7 +4,7 @@
    ConditionalScope.cpp / BitVector.cpp / Bit.cpp / BitVectorSlice.cpp (FrontendDefs.v, (ii));
    [eval_all] evaluates the elaborated node table under an input valuation.
    Only statements, `exact`, and Print Assumptions in this file. *)
-From Gatery Require Import Bits FrontendDefs FrontendSpec.
+From Gatery Require Import Bits FrontendDefs FrontendSpec FrontendDefaultDefs FrontendDefaultProofs.
 Import ListNotations.
 
 (* For EVERY program -- any nesting depth, any ELSEIF chain length, repeated / partial (slice,
@@ -160,3 +160,51 @@ Proof. exact FrontendSpec.scope_logic_is_node_logic_main. Qed.
 Print Assumptions scope_logic_is_node_logic.
 Example scope_logic_is_node_logic_ex : cand [BX] [B0] = [B0] /\ cor [B1] [BX] = [B1] /\ cnot [BX] = [BX].
 Proof. repeat split. Qed.
+
+(* ---------- declarations with a default value (Node_Default, resolved by postprocessing) ----------
+   A defaulted declaration number k is  Decl x isbit (EIn (B + k))  (B = number of pins): the default
+   node's output is an extra input, so elab_correct holds for every value of it.  [resolved_inputs]
+   appends the values hlim/postprocessing/DefaultValueResolution.cpp gives the default nodes:
+   the constant if the variable's final driver depends on the default node ("loopy"), otherwise the
+   FINAL value of the variable (earlier reads then see the later assignment: gatery's forward
+   reference semantics, tests/frontend/defaults.cpp NonLoopWithDefault). *)
+Theorem elab_correct_resolved : forall p n0 pins dfl E R,
+  1 <= n0 -> no_bare_else_if p = true ->
+  run_prog (resolved_inputs n0 pins dfl p) p = Some (E, R) ->
+  let st := elab_prog n0 p in
+  let vs := eval_all (resolved_inputs n0 pins dfl p) (eG st) in
+  sig_values vs (eSigs st) = E /\ live_reads vs (eReads st) = R.
+Proof. exact FrontendDefaultProofs.elab_correct_resolved_main. Qed.
+Print Assumptions elab_correct_resolved.
+
+(* every default node loopy: the defaults are plain initial values of the sequential program *)
+Theorem elab_correct_defaults : forall p n0 pins dfl E R,
+  1 <= n0 -> no_bare_else_if p = true ->
+  all_loopy (resolve_all (eG (elab_prog n0 p)) (fin_prog (length pins) n0 p)) = true ->
+  run_prog (pins ++ dfl) p = Some (E, R) ->
+  resolved_inputs n0 pins dfl p = pins ++ dfl /\
+  let st := elab_prog n0 p in
+  let vs := eval_all (resolved_inputs n0 pins dfl p) (eG st) in
+  sig_values vs (eSigs st) = E /\ live_reads vs (eReads st) = R.
+Proof. exact FrontendDefaultProofs.elab_correct_defaults_main. Qed.
+Print Assumptions elab_correct_defaults.
+
+(* two pins a, d;  Bit en = BitDefault('1'); IF (a) en = '0';            -- keeps its default: loopy
+                   Bit v = BitDefault('0'); read v; UInt y = 0; IF (v) y = 1; v = d;   -- overwritten: v reads as d everywhere *)
+Definition ex_prog_dflt : block :=
+  block_of [Decl 0 true (EIn 2);
+            If (EIn 0) (block_of [Assign 0 [] (EConst [B0])]) CEnd;
+            Decl 1 true (EIn 3);
+            Read 0 1;
+            Decl 2 false (EConst (bv_of_N 2 0));
+            If (ESig 1) (block_of [Assign 2 [] (EConst (bv_of_N 2 1))]) CEnd;
+            Assign 1 [] (EIn 1)].
+Example elab_correct_defaults_ex :
+  map (fun d => (fst (fst d), snd d)) (resolve_all (eG (elab_prog 1 ex_prog_dflt)) (fin_prog 2 1 ex_prog_dflt))
+    = [(0, true); (1, false)] /\
+  resolved_inputs 1 [[B0]; [B1]] [[B1]; [B0]] ex_prog_dflt = [[B0]; [B1]; [B1]; [B1]] /\
+  run_prog (resolved_inputs 1 [[B0]; [B1]] [[B1]; [B0]] ex_prog_dflt) ex_prog_dflt
+    = Some ([(2, bv_of_N 2 1); (1, [B1]); (0, [B1])], [(0, [B1])]) /\
+  all_loopy (resolve_all (eG (elab_prog 1 (block_of [Decl 0 true (EIn 2); If (EIn 0) (block_of [Assign 0 [] (EConst [B0])]) CEnd])))
+                         (fin_prog 2 1 (block_of [Decl 0 true (EIn 2); If (EIn 0) (block_of [Assign 0 [] (EConst [B0])]) CEnd]))) = true.
+Proof. repeat split; vm_compute; reflexivity. Qed.
